@@ -9,6 +9,7 @@ CONSTANTS
   Classes = {"W", "Q"}
   Depth = 8
   Sample = TRUE
+  Paths = {"small", "large"}
 INIT Init
 NEXT Next
 INVARIANT Emit
